@@ -1,5 +1,31 @@
-"""Binding 2 of the tuner properties: real schedulers inside the real Tuner.run (filled in below)."""
+"""Binding 2 of the tuner properties: real schedulers inside the real Tuner.run (scripted poll-type back-end with
+free-running workers under a seeded environment policy).  Traces are judged by TunerLoop_Trace."""
+import json
+
+from harness import tuner_models as M
+from harness.drivers import realsched as R
+from harness.props import tuner_common as T
 
 
 def campaign(rep, pid, tier, seed, failures=False, checkpoints=False):
-    return
+    flags = set(M.PROP_FLAGS[pid])
+    n = 10 if tier == "quick" else 120
+    traces, meta = [], []
+    for ki, kind in enumerate(R.KINDS):
+        for j in range(n):
+            s = seed * 100003 + ki * 1009 + j
+            nw = 1 + (j % 4)
+            p_fail = (0.05 if j % 3 == 0 else 0.0) if (failures or j % 5 == 0) else 0.0
+            p_ext = 0.03 if (failures and j % 4 == 1) else 0.0
+            delete = checkpoints or j % 2 == 0
+            tr, out = R.run(kind, s, nw, started_budget=6 + (j % 5), p_fail=p_fail, p_ext=p_ext, delete_checkpoints=delete,
+                            checkpointing=(j % 3 != 1), maxfail=2 + (j % 3), async_sched=(j % 7 != 3), wait=(j % 6 == 5))
+            tr["id"] = len(traces) + 1
+            traces.append(tr)
+            meta.append({"scheduler": kind, "seed": s, "n_workers": nw, "p_fail": p_fail, "p_ext": p_ext, "delete_checkpoints": delete})
+    counts = T.validate_traces(rep, traces, meta, pid, flags, "real-schedulers")
+    rep.replays += len(traces)
+    rep.extra.setdefault("real_scheduler_runs", {})["kinds"] = R.KINDS
+    rep.extra["real_scheduler_runs"]["runs"] = len(traces)
+    rep.extra["real_scheduler_runs"]["flags_seen"] = counts
+    return counts
